@@ -130,6 +130,86 @@ def finish(ctx, explanation, level='other'):
     return 1 if (new or ctx.broken) else 0
 
 
+# Lemmas: rule sets of other properties that a property's own argument rests on (its tables are built over the byte-level models
+# of the scalar encoders / decoders / input primitives / skip()).  They are re-evaluated inside the dependent check, so that a change
+# which breaks the property *through* a lemma is reported by the property's own command as well.
+LEMMAS = {
+    'C01': ['C03', 'C04', 'C06', 'C11', 'C12', 'PRIM'],
+    'C04': ['PRIM'],
+    'C05': ['PRIM'],
+    'C06': ['PRIM'],
+    'C07': ['C03'],
+    'C08': ['C03'],
+    'C09': ['C03', 'C04', 'C06', 'PRIM'],
+    'C10': ['C04', 'C06', 'PRIM'],
+    'C11': ['C03', 'C04', 'PRIM'],
+    'C12': ['PRIM'],
+    'C13': ['C03'],
+    'C17': ['C03', 'C04', 'PRIM'],
+    'C18': ['C03', 'C04', 'C17', 'PRIM'],
+    'C19': ['C11', 'PRIM'],
+}
+
+
+class LemmaCtx:
+    """forwards the verdicts of a lemma's rules into the dependent property's context"""
+
+    def __init__(self, ctx, pid, known):
+        self.ctx, self.pid, self.known = ctx, pid, known
+        self.tier = 'quick'
+        self.seed = ctx.seed
+        self.rules_run = []
+        self.notes = []
+        self.samples = []
+        self.assumptions = []
+        self.analysed = {}
+
+    def ok(self, rule, instance, nontrivial=True):
+        self.ctx.ok('LEMMA[%s].%s' % (self.pid, rule), instance, nontrivial)
+
+    def violation(self, rule, instance, message, where=None, **detail):
+        key = '%s|%s' % (rule, instance)
+        if (self.pid, key) in self.known:
+            # a recorded finding of the lemma's own property is reported there
+            self.ctx.ok('LEMMA[%s].known' % self.pid, key, nontrivial=False)
+            return
+        self.ctx.violation('LEMMA[%s].%s' % (self.pid, rule), instance, 'lemma of %s (%s): %s' % (self.ctx.pid, self.pid, message), where, **detail)
+
+    def fail_closed(self, rule, message):
+        self.ctx.fail_closed('LEMMA[%s].%s' % (self.pid, rule), message)
+
+    def floor(self, rule, what, count, minimum):
+        self.ctx.floor('LEMMA[%s].%s' % (self.pid, rule), what, count, minimum)
+
+    def sample(self, s):
+        pass
+
+    def count(self, name, n=1):
+        pass
+
+
+def lemmas(ctx):
+    import importlib
+    from .rules import c20
+    names = LEMMAS.get(ctx.pid) or []
+    if not names:
+        return ''
+    known = c20.known_keys()
+    for pid in names:
+        sub = LemmaCtx(ctx, pid, known)
+        c20.reset_caches()
+        if pid == 'PRIM':
+            from .rules import c02
+            sub.pid = 'C02'
+            c02.lemma_prim(sub)
+        else:
+            mod = importlib.import_module('mcv.rules.' + pid.lower())
+            mod.run(sub)
+        ctx.rules_run.extend('LEMMA[%s] %s' % (sub.pid, r) for r in sub.rules_run)
+    c20.reset_caches()
+    return ' Lemmas re-evaluated inside this check (the tables this argument is built on): %s.' % ', '.join(names)
+
+
 def other_configurations(ctx, only=None):
     """thorough tier of the table properties: the property's own rules on every other feature configuration"""
     import importlib, json
@@ -174,6 +254,7 @@ def main(argv):
     ctx = Ctx(a.pid, a.tier if a.tier in ('quick', 'thorough') else 'quick', seed)
     try:
         expl = rules.run(ctx)
+        expl += lemmas(ctx)
         if ctx.tier == 'quick' and ctx.pid == 'C12':
             # the float accessors have a different shape without `half` (no 0xf9 arms): the quick tier covers that build too
             expl += ' The same rules are also run on the build without the `half` feature.'
